@@ -252,26 +252,6 @@ func compareEntry(e *pending.PreConfirmed, m *mBlock) string {
 	return ""
 }
 
-// entryToModel derives an abstract slot from what a view holds itself (used
-// where no sequential model of the writer exists: the property is then
-// evaluated against the view's own blocks).
-func entryToModel(e *pending.PreConfirmed) *mBlock {
-	m := &mBlock{Number: e.Block.Number, Ident: e.BlockIdentifier, Classes: map[string]core.ClassDefinition{}}
-	for i, tx := range e.Block.Transactions {
-		at := &absTx{Hash: tx.Hash().String(), Kind: txKind(tx)}
-		if i < len(e.TransactionStateDiffs) {
-			at.Diff = absFromCore(e.TransactionStateDiffs[i])
-		} else {
-			at.Diff = newAbsDiff()
-		}
-		m.Txs = append(m.Txs, at)
-	}
-	for ch, def := range e.NewClasses {
-		m.Classes[ch.String()] = def
-	}
-	return m
-}
-
 // ---------------------------------------------------------------- overlay
 
 type expect struct {
